@@ -14,13 +14,19 @@ import (
 // C11 — Age and cache-status fields on responses tell the truth.
 func init() { register(&Check{ID: "C11", Run: runC11, ShardDepth: 2}) }
 
+const c11NoDate = int64(999)
+
 var c11Paths = []string{"fresh-hit", "max-stale", "only-if-cached-fresh", "only-if-cached-stale", "swr", "sie-500", "sie-error", "sie-req-max-age0", "sie-request-only-max-age0",
-	"revalidated", "validated-200", "validated-500", "miss", "head", "post", "range", "504", "no-cache-304", "heuristic-hit"}
+	"revalidated", "validated-200", "validated-500", "miss", "head", "post", "range", "504", "no-cache-304", "heuristic-hit", "post-500", "delete-404", "head-503", "put-503"}
 
 func runC11(x *mc.X) {
 	path := mc.Pick(x, "path", c11Paths)
 	originAge := mc.Pick(x, "origin.age", []string{"", "0", "7", "x", "99999999999999999999"})
-	skew := mc.Pick(x, "origin.date-skew", []int64{0, -5, 5})
+	skew := mc.Pick(x, "origin.date-skew", []int64{0, -5, 5, c11NoDate})
+	noDate := skew == c11NoDate
+	if noDate {
+		skew = 0 // the origin sends no Date at all: the cache has to supply the time of receipt
+	}
 	delay := mc.Pick(x, "origin.delay", []int64{0, 3})
 	poison := x.Choose("origin.sends-cache-fields", 2) == 1
 	eIdx := x.Choose("elapsed", 3)
@@ -71,6 +77,14 @@ func runC11(x *mc.X) {
 		method = "HEAD"
 	case "post":
 		method = "POST"
+	case "post-500":
+		method, follow = "POST", "500"
+	case "delete-404":
+		method, follow = "DELETE", "404"
+	case "head-503":
+		method, follow = "HEAD", "503"
+	case "put-503":
+		method, follow = "PUT", "503"
 	case "range":
 		rng = "bytes=0-1"
 	case "504":
@@ -93,7 +107,7 @@ func runC11(x *mc.X) {
 			h = append(h, [2]string{"Last-Modified", httpDate(w.Epoch.Add(-secs(100000)))})
 		}
 		h = hdrIf(h, "Age", originAge)
-		answer(w, RS{Status: 200, H: poisonH(h), Delay: secs(delay), DateOff: secs(skew), Proto: proto})
+		answer(w, RS{Status: 200, H: poisonH(h), Delay: secs(delay), DateOff: secs(skew), Proto: proto, NoDate: noDate})
 		o1 = get(w, U)
 		logObs(x, fmt.Sprintf("GET (origin: 200 %v delay=%ds date-skew=%ds)", h, delay, skew), o1)
 		checkC11Fields(x, path+"/store", o1, nil, nil, time.Now())
@@ -120,6 +134,9 @@ func runC11(x *mc.X) {
 			return resp, nil
 		case follow == "500":
 			return o.Respond(c, RS{Status: 500, H: poisonH(hdrIf(nil, "Age", originAge)), Delay: secs(delay)}), nil
+		case follow == "404" || follow == "503":
+			st, _ := strconv.Atoi(follow)
+			return o.Respond(c, RS{Status: st, H: poisonH(hdrIf(nil, "Age", originAge)), Delay: secs(delay)}), nil
 		case follow == "error":
 			if err := world.Sleep(c.Req, secs(delay)); err != nil {
 				return nil, err
